@@ -50,7 +50,7 @@ func TestVF_C14_V1RoundTrip(t *testing.T) {
 	st := vfhelp.NewStats("TestVF_C14_V1RoundTrip",
 		"as TestVF_C14_FileRoundTrip but the file is produced in format V1 by the unexported versioned writer (V1 session records), read by the production reader; no shrink (V1 predates on-disk state machines)")
 	defer st.Flush()
-	rapid.Check(t, snapio.FileRoundTrip(st, v1Flavor(), 25))
+	rapid.Check(t, snapio.FileRoundTripHuge(st, v1Flavor(), 22, 8))
 }
 
 func TestVF_C14_V1Flip(t *testing.T) {
